@@ -21,6 +21,13 @@ import (
 
 func init() {
 	replayFamilies = append(replayFamilies, replayFamily{
+		name: "stream-consumption",
+		match: func(o *Obligation) bool {
+			return o.Kind == "post" && o.Status == "sat" && o.Model != "" && consumedPostRe.MatchString(strings.TrimSpace(o.Desc))
+		},
+		run: replayConsumption,
+	})
+	replayFamilies = append(replayFamilies, replayFamily{
 		name: "scalar-panic",
 		match: func(o *Obligation) bool {
 			return o.Kind == "safe" && o.Status == "sat" && o.Model != ""
@@ -146,4 +153,168 @@ func Test_VerifReplay(t *testing.T) {
 		os.WriteFile(replayPath, data, 0o644)
 	}
 	return confirmed
+}
+
+// Replay family "stream-consumption": a refuted postcondition of the shape
+//
+//	result == nil ==> consumed(r) == old(consumed(r)) + E
+//
+// (E over the parameters) of a package-level function with one io.Reader parameter and otherwise integer, boolean or
+// context parameters. The real function is called with the model's parameter values on a counting reader over zero
+// bytes; the replay is confirmed when the call succeeds and the number of bytes it consumed differs from E.
+var consumedPostRe = regexp.MustCompile(`^result\d? == nil ==> consumed\(r\) == old\(consumed\(r\)\) \+ (.+)$`)
+
+func replayConsumption(p *Program, prop string, o *Obligation, replayPath string) bool {
+	m := consumedPostRe.FindStringSubmatch(strings.TrimSpace(o.Desc))
+	if m == nil {
+		return false
+	}
+	expr := m[1]
+	var fn *ssa.Function
+	for f := range p.Cons.ByFunc {
+		if shortName(f) == o.Func {
+			fn = f
+		}
+	}
+	if fn == nil || fn.Signature.Recv() != nil || fn.Pkg == nil {
+		return false
+	}
+	vals := map[string]string{}
+	for _, mm := range modelIntRe.FindAllStringSubmatch(o.Model, -1) {
+		v := mm[3]
+		if mm[4] != "" {
+			v = "-" + mm[4]
+		}
+		vals[mm[1]] = v
+	}
+	qual := func(q *types.Package) string {
+		if q == fn.Pkg.Pkg {
+			return ""
+		}
+		return q.Name()
+	}
+	var decls, args []string
+	readers := 0
+	imports := map[string]bool{"fmt": true, "testing": true, "bytes": true, "io": true}
+	for _, prm := range fn.Params {
+		name := "p." + smtIdent(prm.Name())
+		switch t := prm.Type().Underlying().(type) {
+		case *types.Basic:
+			v, ok := vals[name]
+			if !ok {
+				v = "0"
+			}
+			switch {
+			case t.Info()&types.IsInteger != 0:
+				if len(v) > 7 {
+					return false // would need more input than a replay should allocate
+				}
+				decls = append(decls, fmt.Sprintf("%s := %s(%s)", prm.Name(), types.TypeString(prm.Type(), qual), v))
+			case t.Info()&types.IsBoolean != 0:
+				if !ok {
+					v = "false"
+				}
+				decls = append(decls, fmt.Sprintf("%s := %s", prm.Name(), v))
+			default:
+				return false
+			}
+			decls = append(decls, "_ = "+prm.Name())
+			args = append(args, prm.Name())
+		case *types.Interface:
+			switch prm.Type().String() {
+			case "io.Reader":
+				readers++
+				args = append(args, "cr")
+			case "context.Context":
+				imports["context"] = true
+				args = append(args, "context.Background()")
+			default:
+				return false
+			}
+		default:
+			return false
+		}
+	}
+	res := fn.Signature.Results()
+	if readers != 1 || res.Len() == 0 || res.At(res.Len()-1).Type().String() != "error" {
+		return false
+	}
+	var lhs []string
+	for i := 0; i < res.Len()-1; i++ {
+		lhs = append(lhs, "_")
+	}
+	lhs = append(lhs, "err")
+	var imp []string
+	for _, k := range sortedKeys(imports) {
+		imp = append(imp, fmt.Sprintf("\t%q", k))
+	}
+	call := fn.Name() + "(" + strings.Join(args, ", ") + ")"
+	src := fmt.Sprintf(`package %s
+
+import (
+%s
+)
+
+type verifCountingReader struct {
+	r io.Reader
+	n int
+}
+
+func (c *verifCountingReader) Read(p []byte) (int, error) {
+	k, err := c.r.Read(p)
+	c.n += k
+	return k, err
+}
+
+func Test_VerifReplay(t *testing.T) {
+	cr := &verifCountingReader{r: bytes.NewReader(make([]byte, 1<<21))}
+	%s
+	%s := %s
+	want := uint64(%s)
+	if err == nil && uint64(cr.n) != want {
+		fmt.Println("REPLAY-VIOLATION: call succeeded, consumed", cr.n, "bytes, contract says", want)
+	} else {
+		fmt.Println("REPLAY-OK: consumed", cr.n, "want", want, "err", err)
+	}
+}
+`, fn.Pkg.Pkg.Name(), strings.Join(imp, "\n"), strings.Join(decls, "\n\t"), strings.Join(lhs, ", "), call, expr)
+	confirmed, out := runReplayTest(p, fn, src, "REPLAY-VIOLATION:")
+	rec := map[string]interface{}{}
+	if data, err := os.ReadFile(replayPath); err == nil {
+		json.Unmarshal(data, &rec)
+	}
+	rec["replay"] = map[string]interface{}{"family": "stream-consumption", "call": call, "parameters": decls, "go_test": src, "output": out, "confirmed_on_real_code": confirmed}
+	if data, err := json.MarshalIndent(rec, "", " "); err == nil {
+		os.WriteFile(replayPath, data, 0o644)
+	}
+	return confirmed
+}
+
+// runReplayTest injects the generated in-package test with -overlay, runs it and looks for the marker.
+func runReplayTest(p *Program, fn *ssa.Function, src, marker string) (bool, string) {
+	rel := strings.TrimPrefix(strings.TrimPrefix(fn.Pkg.Pkg.Path(), repoModule), "/")
+	if rel == "" {
+		rel = "."
+	}
+	tmp, err := os.MkdirTemp(scratchBase(), "replay")
+	if err != nil {
+		return false, ""
+	}
+	defer os.RemoveAll(tmp)
+	testFile := filepath.Join(tmp, "zz_verif_replay_test.go")
+	if os.WriteFile(testFile, []byte(src), 0o644) != nil {
+		return false, ""
+	}
+	dest := filepath.Join(p.RepoDir, rel, "zz_verif_replay_test.go")
+	ov, _ := json.Marshal(map[string]map[string]string{"Replace": {dest: testFile}})
+	ovFile := filepath.Join(tmp, "ov.json")
+	os.WriteFile(ovFile, ov, 0o644)
+	cmd := exec.Command("sh", "-c", fmt.Sprintf("ulimit -v 8000000; cd %q && go test -overlay %q -vet=off -count=1 -timeout 60s -v -run Test_VerifReplay ./%s", p.RepoDir, ovFile, rel))
+	cmd.Env = append(os.Environ(), "GOFLAGS=-mod=mod", "GOPROXY=off", "GOSUMDB=off", "GOTOOLCHAIN=local")
+	out, _ := cmd.CombinedOutput()
+	text := string(out)
+	if len(text) > 4000 {
+		text = text[:4000]
+	}
+	return strings.Contains(text, marker), text
 }
